@@ -72,3 +72,11 @@ CASES += [
     dict(id='c18-checks-dropped-after-use', prop='C18', file=TBC, expect='R10',
          old="   for (auto & curr_constraint : mConstraints)", new="   mChecks.clear();\n   for (auto & curr_constraint : mConstraints)"),
 ]
+
+CASES += [
+    dict(id='c18-eq-set-caption-order-of-blocks', prop='C18', file=A, expect=None,
+         old="   if (mandatory != nullptr)\n      mCaptionMandatory.assign( mandatory);\n\n   if (optional != nullptr)\n      mCaptionOptional.assign( optional);",
+         new="   if (optional != nullptr)\n      mCaptionOptional.assign( optional);\n\n   if (mandatory != nullptr)\n      mCaptionMandatory.assign( mandatory);"),
+    dict(id='c18-optional-pass-prints-mandatory-caption', prop='C18', file=A, expect='R11',
+         old="            os << mCaptionOptional << endl;", new="            os << mCaptionMandatory << endl;"),
+]
